@@ -123,14 +123,16 @@ typedef struct wpk { int side; int size; int at_ms; int compressible; int dst; }
 #define A_CLA 0x0A000002u
 #define A_CLB 0x0A000003u
 #define A_OUT 0x08080808u
-static const wpk WL0[] = { { 1, 60, 100, 0, A_SRV }, { 0, 1100, 150, 0, A_CLA }, { 1, 1100, 160, 0, A_SRV }, { 0, 200, 170, 1, A_CLA }, { 1, 200, 1500, 1, A_SRV }, { 0, 19, 1600, 0, A_CLA } };
+static const wpk WL0[] = { { 1, 60, 100, 0, A_SRV }, { 0, 1100, 150, 0, A_CLA }, { 1, 1100, 160, 0, A_SRV }, { 0, 200, 170, 1, A_CLA }, { 1, 200, 1500, 1, A_SRV }, { 0, 19, 1600, 0, A_CLA },
+	/* larger than any fixed 4 KB buffer on the way, compressible enough to fit 16 fragments everywhere */
+	{ 1, 5000, 1700, 1, A_SRV }, { 0, 5000, 1800, 1, A_CLA }, { 0, 20000, 2600, 1, A_CLA }, { 1, 20000, 2700, 1, A_SRV } };
 static const wpk WL1[] = { { 1, 1100, 100, 0, A_SRV }, { 1, 1100, 110, 0, A_SRV }, { 0, 1100, 120, 0, A_CLA }, { 0, 1100, 121, 0, A_CLA }, { 0, 1100, 122, 0, A_CLA }, { 0, 60, 123, 0, A_CLA },
 	{ 0, 60, 124, 0, A_CLA }, { 0, 60, 125, 0, A_CLA }, { 1, 1, 2500, 0, A_SRV }, { 1, 4000, 3000, 0, A_SRV }, { 0, 4000, 3500, 0, A_CLA }, { 1, 20, 6000, 0, A_SRV } };
 static const wpk WL2[] = { { 1, 700, 100, 0, A_CLB }, { 2, 300, 200, 0, A_CLA }, { 0, 500, 300, 0, A_CLB }, { 1, 64, 900, 1, A_SRV }, { 2, 1100, 1000, 0, A_SRV }, { 0, 64, 1100, 0, A_OUT } };
 /* C02 clean path: four per direction, back-to-back and spaced, all sizes that fit 16 fragments in most cells */
 static const wpk WL3[] = { { 1, 40, 100, 0, A_SRV }, { 1, 300, 101, 0, A_SRV }, { 0, 40, 102, 0, A_CLA }, { 0, 300, 103, 0, A_CLA }, { 1, 64, 2000, 1, A_SRV }, { 0, 64, 2100, 1, A_CLA },
 	{ 1, 500, 4000, 0, A_SRV }, { 0, 500, 4001, 0, A_CLA } };
-static const struct { const wpk *p; int n; } WLS[4] = { { WL0, 6 }, { WL1, 12 }, { WL2, 6 }, { WL3, 8 } };
+static const struct { const wpk *p; int n; } WLS[4] = { { WL0, 10 }, { WL1, 12 }, { WL2, 6 }, { WL3, 8 } };
 
 static int up_chunk_cap, down_frag_cap;
 static int WL_MUST[64];   /* bytes per upstream query / downstream fragment in this cell */
@@ -182,12 +184,8 @@ static void mon_srv_recv(int proc, int di)
 	}
 }
 
-/* ---- C15: fragment monitor ---- */
-typedef struct fragstate { int F; int pendingF; int cur_seq, next_frag, total; int finished; unsigned char lastfrag[4100]; int lastlen; int lastflag; unsigned char asm_[70000]; } fragstate;
-static fragstate FST[3];
 static void c15_on_answer(const rd_msg *m, const unsigned char *msg, int len, int sess);
 static void c15_on_query(const rd_msg *m, int sess);
-
 static int sess_of_addr(const struct sockaddr_storage *a)
 {
 	/* session = client process behind that address (relay back address counts as the client(s) behind it) */
@@ -255,72 +253,8 @@ static void after_run(int proc)
 }
 
 /* ---------------------------------------------------------------- C15 */
-static int b32val(int c) { if (c >= 'a' && c <= 'z') return c - 'a'; if (c >= 'A' && c <= 'Z') return c - 'A'; if (c >= '0' && c <= '5') return 26 + c - '0'; return -1; }
-
-static void c15_on_query(const rd_msg *m, int sess)
-{
-	/* 'n' request: base32(userid, size_hi, size_lo, cmc..) */
-	if (m->qnamelen < 8 || sess < 1 || sess > 2) return;
-	int l0 = m->qname[0];
-	if (tolower(m->qname[1]) != 'n' || l0 < 6) return;
-	unsigned char v[8]; unsigned char raw[5] = { 0 };
-	for (int i = 0; i < 5 && i + 2 <= l0; i++) { int x = b32val(m->qname[2 + i]); if (x < 0) return; v[i] = x; }
-	raw[0] = (v[0] << 3) | (v[1] >> 2); raw[1] = ((v[1] & 3) << 6) | (v[2] << 1) | (v[3] >> 4); raw[2] = ((v[3] & 15) << 4) | (v[4] >> 1);
-	FST[sess].pendingF = (raw[1] << 8) | raw[2];
-}
-
-static void c15_on_answer(const rd_msg *m, const unsigned char *msg, int len, int sess)
-{
-	(void)len;
-	if (sess < 1 || sess > 2 || m->qnamelen < 3) return;
-	fragstate *f = &FST[sess];
-	if (f->F == 0) f->F = 100;
-	int c = m->qname[1];
-	static unsigned char pl[70000];
-	int n = decode_downstream(m, msg, pl, sizeof pl);
-	if (tolower(c) == 'n') {
-		/* accepted iff the reply is the two size bytes */
-		if (n == 2 && ((pl[0] << 8) | pl[1]) == f->pendingF) {
-			if (f->pendingF < 2) viol("fragsize-below-2-accepted", "server acknowledged fragment size %d", f->pendingF);
-			f->F = f->pendingF;
-		}
-		return;
-	}
-	int isdata = (tolower(c) == 'p') || isxdigit(c);
-	if (!isdata) return;
-	if (n < 0) { viol("undecodable-data-answer", "answer to a %c query of session %d cannot be decoded by the reference decoder", c, sess); return; }
-	if (n < 2) return;                       /* 1-byte illegal answer to a duplicate */
-	if (n == 5 && !memcmp(pl, "BADIP", 5)) return;
-	xp_count(K_DATAFRAGS, 1);
-	int dlen = n - 2;
-	int seq = (pl[1] >> 5) & 7, frag = (pl[1] >> 1) & 15, last = pl[1] & 1;
-	if (dlen > f->F) viol("fragment-larger-than-negotiated", "session %d negotiated %d but an answer carries %d payload bytes (seq %d frag %d)", sess, f->F, dlen, seq, frag);
-	if (dlen == 0) return;
-	if (seq != f->cur_seq || (frag == 0 && f->finished)) {
-		if (seq != f->cur_seq || frag == 0) {
-			if (frag != 0) { viol("first-fragment-not-zero", "session %d: first fragment seen of downstream packet %d has number %d", sess, seq, frag); }
-			f->cur_seq = seq; f->next_frag = 0; f->total = 0; f->finished = 0; f->lastlen = -1;
-		}
-	}
-	if (frag == f->next_frag) {
-		if (f->finished) viol("fragment-after-last", "session %d: fragment %d follows the last-flagged fragment of packet %d", sess, frag, seq);
-		if (f->total + dlen <= (int)sizeof f->asm_) memcpy(f->asm_ + f->total, pl + 2, dlen);
-		f->total += dlen; f->next_frag++;
-		memcpy(f->lastfrag, pl + 2, dlen > 4096 ? 4096 : dlen); f->lastlen = dlen; f->lastflag = last;
-		if (last) {
-			f->finished = 1;
-			static unsigned char un[70000]; unsigned long ul = sizeof un;
-			if (uncompress(un, &ul, f->asm_, f->total) != Z_OK)
-				viol("last-flag-on-non-final-fragment", "session %d packet %d: fragments 0..%d (%d bytes) flagged complete but do not form a compressed packet", sess, seq, frag, f->total);
-		}
-	} else if (frag == f->next_frag - 1) {
-		/* resend of the current fragment: must be the same bytes and flag */
-		if (f->lastlen != dlen || memcmp(f->lastfrag, pl + 2, dlen > 4096 ? 4096 : dlen) || f->lastflag != last)
-			viol("resent-fragment-differs", "session %d packet %d fragment %d resent with different content/flag (%d vs %d bytes)", sess, seq, frag, dlen, f->lastlen);
-	} else if (frag > f->next_frag) {
-		viol("fragment-number-skipped", "session %d packet %d: fragment %d sent when %d was next", sess, seq, frag, f->next_frag);
-	}
-}
+#define FM_COUNT_FRAG() xp_count(K_DATAFRAGS, 1)
+#include "fragmon.h"
 
 /* ---------------------------------------------------------------- state key for pruning */
 static void state_key(uint64_t k[2])
